@@ -108,6 +108,10 @@ FEATURES = {
     "clo": r"clo32|clo64", "revbit": r"revbit|fbrev", "conv_round": r"conv_round", "trap": r"trap\(", "npc": r"get_npc",
     "usr": r"set_usr_field", "float": r"FLOAT|DOUBLE", "inc": r"\+\+", "stmtexpr": r"\(\{", "if": r"if \(", "new": r"N\b|_NEW",
     "pred": r"P[0-3]\b|P[a-z]V", "alias": r"HEX_REG_ALIAS", "deposit": r"deposit", "compound_assign": r"[-+|&^]=",
+    # operator x operand-width combinations that only a handful of behaviours have
+    "uneg_narrow": r"[(?:=]\s*-\s*\(+\(?\(u?int(8|16)_t\)", "cmp_narrow": r"\(\(u?int(8|16)_t\)[^;]{0,60}\)\s*(<|>|==|<=|>=)\s*\(*\(\(u?int(8|16)_t\)",
+    "sub_narrow": r"-\s*\(*\(\(u?int(8|16)_t\)", "if64": r"if \(\(?__\w+ [&^]", "sizeof": r"sizeof", "unsigned_cast": r"\(unsigned",
+    "abs_pattern": r"< 0\) \? \(-", "mul64": r"\(\(int64_t\)[^;]{0,80}\*\s*\(*\(\(int64_t\)", "shift_var": r">>\s*\(*[A-Z][a-z]V|<<\s*\(*[A-Z][a-z]V",
 }
 
 
